@@ -5,6 +5,6 @@ Require Extraction.
 Require Import ExtrOcamlBasic ExtrOcamlString.
 Extraction Language OCaml.
 Extraction "../ocaml/c07/model.ml" seq_run obs_items req_key accept_full accept_drop prop_full_ok prop_drop_ok
-  good_script fail_point spec_stream spec_error_stream spec_requests script_pages
-  e_timeout e_unexpected e_empty_plan e_pool e_broken
+  expected known_ignored fail_point plans_ok good_script start spec_stream spec_error_stream spec_requests
+  script_pages e_timeout e_unexpected e_empty_plan e_pool e_broken
   Z.of_N. (* Z.of_N only so that the shared conv.ml finds the type z *)
